@@ -7,6 +7,7 @@ import (
 	"sort"
 	"strconv"
 	"strings"
+	"sync/atomic"
 	"time"
 
 	"google.golang.org/protobuf/proto"
@@ -28,11 +29,36 @@ type c13Run struct {
 	events   chan string
 	retained chan []uint64
 	tmp      string
+	expired  bool
 }
 
 const c13Wait = 5 * time.Second
-const c13ShortWait = 2 * time.Second
 const c13Settle = 3 * time.Millisecond
+
+// Waiting for an event that the trace says must come (a parked Remove, a notification) is bounded by a
+// generous timeout. On a correct tree these waits never expire, so no verdict depends on them; on a broken
+// tree the first expirations are observed with the long timeout and later ones (same run, or later in a case
+// that already diverged) with a short one, which only bounds the running time of a failing check.
+var c13Expired atomic.Int64
+
+func (r *c13Run) patience() time.Duration {
+	if r.expired || c13Expired.Load() >= 6 {
+		return 100 * time.Millisecond
+	}
+	return 2 * time.Second
+}
+
+func (r *c13Run) longPatience() time.Duration {
+	if r.expired || c13Expired.Load() >= 6 {
+		return 200 * time.Millisecond
+	}
+	return c13Wait
+}
+
+func (r *c13Run) noteExpired() {
+	r.expired = true
+	c13Expired.Add(1)
+}
 
 func (r *c13Run) boot() string {
 	r.gate = newGateLoc(r.inner)
@@ -133,7 +159,8 @@ func c13Impl(c lib.Case) []string {
 			r.store.AddOperatorSnapshot(&snapshotpb.OperatorCheckpoint{CheckpointId: id, OperatorId: "op1", DkvFileUri: "op1/checkpoints"})
 			r.store.AddSourceSnapshot(&jobpb.SourceRunnerCheckpointCompleteRequest{CheckpointId: id, SourceRunnerId: "sr1"})
 			// the publisher goroutine is now on its way to Write: wait until it is parked there
-			if r.gate.waitFor(func(g *gateCall) bool { return g.write && len(g.paths) == 1 && g.paths[0] == c13Path(id) }, c13Wait) == nil {
+			if r.gate.waitFor(func(g *gateCall) bool { return g.write && len(g.paths) == 1 && g.paths[0] == c13Path(id) }, r.longPatience()) == nil {
+				r.noteExpired()
 				out = append(out, fmt.Sprintf("id %d no-write", id))
 				continue
 			}
@@ -156,7 +183,8 @@ func c13Impl(c lib.Case) []string {
 			select {
 			case <-calls[0].performed:
 				out = append(out, c13Files(r.inner))
-			case <-time.After(c13Wait):
+			case <-time.After(r.longPatience()):
+				r.noteExpired()
 				out = append(out, "timeout")
 			}
 		case "lock":
@@ -183,7 +211,7 @@ func c13Impl(c lib.Case) []string {
 			}
 			close(calls[0].relB)
 			res := "timeout"
-			deadline := time.After(c13Wait)
+			deadline := time.After(r.longPatience())
 		waitEvent:
 			for {
 				select {
@@ -193,6 +221,7 @@ func c13Impl(c lib.Case) []string {
 						break waitEvent
 					}
 				case <-deadline:
+					r.noteExpired()
 					break waitEvent
 				}
 			}
@@ -210,8 +239,12 @@ func c13Impl(c lib.Case) []string {
 					return true
 				}
 			}
-			deadline := time.Now().Add(c13ShortWait)
-			for len(r.gate.snapshot(pend)) < k && time.Now().Before(deadline) {
+			deadline := time.Now().Add(r.patience())
+			for len(r.gate.snapshot(pend)) < k {
+				if !time.Now().Before(deadline) {
+					r.noteExpired()
+					break
+				}
 				time.Sleep(200 * time.Microsecond)
 			}
 			time.Sleep(c13Settle)
@@ -242,8 +275,9 @@ func c13Impl(c lib.Case) []string {
 				}
 				ids, ok := pathsIDs(g.paths)
 				return ok && sameIDs(ids, want)
-			}, c13ShortWait)
+			}, r.patience())
 			if g == nil {
+				r.noteExpired()
 				out = append(out, "absent")
 				continue
 			}
@@ -251,7 +285,8 @@ func c13Impl(c lib.Case) []string {
 			select {
 			case <-g.performed:
 				out = append(out, c13Files(r.inner))
-			case <-time.After(c13Wait):
+			case <-time.After(r.longPatience()):
+				r.noteExpired()
 				out = append(out, "timeout")
 			}
 		case "drain":
@@ -263,7 +298,8 @@ func c13Impl(c lib.Case) []string {
 				case ids := <-r.retained:
 					got = append(got, ids...)
 					bad = bad || len(ids) != 1
-				case <-time.After(c13ShortWait):
+				case <-time.After(r.patience()):
+					r.noteExpired()
 					i = k
 				}
 			}
